@@ -548,6 +548,7 @@ def _bind_generators(eng, gens, st, frame):
     bound = []
     fr = dict(frame)
     temp = []
+    pushed = []
 
     def push(g):
         guards.append(g)
@@ -568,6 +569,8 @@ def _bind_generators(eng, gens, st, frame):
                 push(z3.Select(it.term, x.term))
                 val = x
                 bound.append(x.term)
+                eng.bound_stack.append((x.term, z3.Select(it.term, x.term)))
+                pushed.append(1)
             else:
                 seq = sym_sequence(eng, it, st)
                 if seq is None:
@@ -577,6 +580,8 @@ def _bind_generators(eng, gens, st, frame):
                 push(z3.And(idx.term >= 0, idx.term < n))
                 val = acc(idx.term)
                 bound.append(idx.term)
+                eng.bound_stack.append((idx.term, z3.And(idx.term >= 0, idx.term < n)))
+                pushed.append(1)
             st.frames.append(fr)
             try:
                 for _ in eng.assign(gen.target, val, st):
@@ -589,6 +594,8 @@ def _bind_generators(eng, gens, st, frame):
     finally:
         ids = {g.get_id() for g in temp}
         st.pc[:] = [c for c in st.pc if not (c.get_id() in ids and c.get_id() not in st.facts)]
+        for _ in pushed:
+            eng.bound_stack.pop()
     return bound, z3.And(guards) if guards else z3.BoolVal(True), fr
 
 
@@ -598,9 +605,13 @@ def _symbolic_comp(models, eng, e, st, frame, how):
         raise Untranslatable("symbolic dict comprehension", e)
     bound, guard, fr = _bind_generators(eng, gens, st, frame)
     st.frames.append(fr)
+    for b in bound:
+        eng.bound_stack.append((b, guard))
     try:
         elt = eng.ev_merged(e.elt, st)
     finally:
+        for b in bound:
+            eng.bound_stack.pop()
         st.frames.pop()
     if not isinstance(elt, V):
         raise Untranslatable("comprehension element is not an SMT value", e)
@@ -664,9 +675,13 @@ def quantify_gen(models, eng, g, st, exists):
         return V(BOOL, (z3.Or if exists else z3.And)(terms or [z3.BoolVal(not exists)]))
     bound, guard, fr = _bind_generators(eng, e.generators, st, frame0)
     st.frames.append(fr)
+    for b in bound:
+        eng.bound_stack.append((b, guard))
     try:
         elt = eng.ev_merged(e.elt, st, want_bool=True)
     finally:
+        for b in bound:
+            eng.bound_stack.pop()
         st.frames.pop()
     if exists:
         return V(BOOL, z3.Exists(bound, z3.And(guard, elt.term)))
